@@ -199,12 +199,62 @@ def cases(rng, tier):
             out.append(op_case(rng, op))
     for _ in range(40 if tier == 'quick' else 1200):
         out.append(dag_case(rng, tier))
+    for w in (rng.sample(BIG, 3) if tier == 'quick' else BIG):
+        out.append({'kind': 'big', 'which': w, 'seed': rng.randrange(2 ** 31), 'alias': {}, 'lines': ['t modes']})
     for c in out:
-        c['desc'] = ' ; '.join(c['lines'])[:600] + f" alias={c['alias']}"
+        c['desc'] = ' ; '.join(c['lines'])[:600] + f" alias={c['alias']}" + (f" large arrays: {c['which']}" if c['kind'] == 'big' else '')
     return out
 
 
+def _big(c):
+    """arrays of several MiB (implementation side only): the result of an EARLIER call and every operand must keep their bytes when
+    the same op runs again on other data of the same shape, results of two calls share no memory, and the gradients an earlier
+    backward left behind are not touched by a later forward"""
+    sg = common.impl()
+    rs = np.random.RandomState(c['seed'])
+    problems = []
+    def T(shape, rg=False):
+        return sg.Tensor(rs.randint(-3, 4, shape).astype(np.float32), requires_grad=rg)
+    def twice(name, mk, call):
+        a1, a2 = mk(), mk()
+        ops1 = [t for t in a1 if isinstance(t, sg.Tensor)]
+        before_ops = [t.data.tobytes() for t in ops1]
+        r1 = call(*a1)
+        g = sg.Tensor(rs.randint(-2, 3, r1.shape).astype(np.float32))
+        if r1.requires_grad: r1.backward(g)
+        snap_r1 = r1.data.tobytes()
+        snap_g = [None if t._grad is None else t._grad.tobytes() for t in ops1]
+        r2 = call(*a2)
+        if r2.requires_grad: r2.backward(sg.Tensor(rs.randint(-2, 3, r2.shape).astype(np.float32)))
+        if r1.data.tobytes() != snap_r1: problems.append(f'{name}: the result of an earlier call changed when the op ran again on other data ({r1.data.nbytes} bytes)')
+        if np.shares_memory(r1.data, r2.data): problems.append(f'{name}: the results of two calls share memory')
+        if [t.data.tobytes() for t in ops1] != before_ops: problems.append(f'{name}: an operand changed')
+        if [None if t._grad is None else t._grad.tobytes() for t in ops1] != snap_g: problems.append(f'{name}: the gradient an earlier backward left on an operand changed during a later call')
+        if any(t._grad is not None and any(np.shares_memory(t._grad, u._grad) for u in a2 if isinstance(u, sg.Tensor) and u._grad is not None) for t in ops1):
+            problems.append(f'{name}: gradients of operands of two different calls share memory')
+    which = c['which']
+    if which == 'fold':
+        twice('fold', lambda: (T((1, 2 * 512 * 512, 4), True),), lambda x: sg.nn.functional.fold(x, (1024, 1024), 512, stride=512))
+    elif which == 'fold-padded':
+        twice('fold (padding 1)', lambda: (T((1, 2 * 512 * 512, 4), True),), lambda x: sg.nn.functional.fold(x, (1022, 1022), 512, stride=512, padding=1))
+    elif which == 'conv2d':
+        twice('conv2d', lambda: (T((1, 1, 1100, 1000), True), T((2, 1, 550, 500), True)), lambda x, w: sg.nn.functional.conv2d(x, w, None, stride=(550, 500)))
+    elif which == 'max_pool2d':
+        twice('max_pool2d', lambda: (T((1, 1, 2048, 1024), True),), lambda x: sg.nn.functional.max_pool2d(x, (1024, 512), (1024, 512)))
+    elif which == 'unfold':
+        twice('unfold', lambda: (T((1, 1, 1100, 1000), True),), lambda x: sg.nn.functional.unfold(x, (550, 500), stride=(550, 500)))
+    else:
+        twice('matmul', lambda: (T((1100, 1000), True), T((1000, 8), True)), lambda a, b: a @ b)
+    return problems
+
+
+BIG = ['fold', 'fold-padded', 'conv2d', 'max_pool2d', 'unfold', 'matmul']
+
+
 def _exec(c):
+    if c['kind'] == 'big':
+        r = common.outcome(lambda: _big(c))
+        return tprog.run_program(c['lines']), ([f'large-array run raised: {c["which"]}'] if r == 'rejected' else r)
     im = Exec()
     im.alias = c['alias']
     try:
@@ -242,7 +292,7 @@ def oracle(c):
     io, problems = _exec(c)
     if problems:
         return {'key': {'cls': 'mutation', 'what': problems[0].split(' changed ')[0][:40] if ' changed ' in problems[0] else 'repeat'},
-                'case': {'lines': c['lines'], 'alias': c['alias'], 'kind': c['kind']}, 'what': '; '.join(problems[:3])}
+                'case': {'lines': c['lines'], 'alias': c['alias'], 'kind': c['kind'], 'which': c.get('which'), 'seed': c.get('seed')}, 'what': '; '.join(problems[:3])}
     return None
 
 
